@@ -28,6 +28,7 @@ var LockEvents int64
 func Sequential() {
 	Set(func(mu *sync.RWMutex, write bool) {
 		LockEvents++
+		fsx.CheckRunaway()
 		if write {
 			if mu.TryLock() {
 				mu.Unlock()
